@@ -32,6 +32,9 @@ func commonChecks(run *Run) {
 	for _, h := range run.Harness {
 		run.fail("HARNESS", "harness", "harness", "%s", h)
 	}
+	if run.Reason == "steps" {
+		run.Discard = "step-cap" // inconclusive: the schedule starved the workload past the step budget
+	}
 	for _, e := range run.Reals {
 		if e.Net != nil && (e.Net.LogOverflow() || e.Net.TapOverflow()) {
 			run.Discard = "log-overflow"
